@@ -39,7 +39,7 @@ PROPS = {
     "C03": dict(
         title="Each selected active node runs exactly once per execution, nothing else runs",
         core=["SCH-ONCE", "SCH-ORIGIN", "SCH-PRUNE", "SCH-DONE"],
-        aux=["OWN-STRICT", "OWN-FORCE", "REF-UNIQ", "GT-CYCLE", "GT-GATE", "GT-CARRY", "REF-KEY", "SCH-DEACT", "GT-POP", "GT-ALIAS", "OWN-LIVERESULTS", "REF-WRAPDICT", "REF-FUNCOPY", "REF-UNWRAP", "OWN-WRITEBACK", "SCH-ACTIVE", "GT-GATEEXACT", "REF-CALLID"],
+        aux=["OWN-STRICT", "OWN-FORCE", "REF-UNIQ", "GT-CYCLE", "GT-GATE", "GT-CARRY", "REF-KEY", "SCH-DEACT", "GT-POP", "GT-ALIAS", "OWN-LIVERESULTS", "REF-WRAPDICT", "REF-FUNCOPY", "REF-UNWRAP", "OWN-WRITEBACK", "SCH-ACTIVE", "GT-GATEEXACT", "REF-CALLID", "GT-EXECSETUP"],
         explanation="Exactly-once event pattern on every loop path: the selected id leaves the runnable set exactly once on every "
                     "path that dispatches or deactivates it and never otherwise; at most one dispatch per iteration; pre-computed "
                     "ids pruned before the runnable set is formed; results map write-once; per-call-site ids.",
@@ -121,7 +121,7 @@ PROPS = {
     "C11": dict(
         title="A setup node runs at most once per DAG instance and its value is reused",
         core=["OWN-WRITEBACK", "OWN-SETUP", "SCH-PRUNE"],
-        aux=["OWN-DEEPCOPY", "VAL-SETUPDEP", "VAL-SETUPARG", "SIB-DAG", "SIB-FWD", "GT-PRESENCE", "OWN-SCHEDCOPY", "VAL-GENREUSE", "GT-ALIASNORM", "GT-DEFAULTSEL", "OWN-LIVERESULTS", "REF-WRAPDICT", "OWN-NODEEPVAL", "GT-GATEEXACT", "VAL-EMPTYFOLD"],
+        aux=["OWN-DEEPCOPY", "VAL-SETUPDEP", "VAL-SETUPARG", "SIB-DAG", "SIB-FWD", "GT-PRESENCE", "OWN-SCHEDCOPY", "VAL-GENREUSE", "GT-ALIASNORM", "GT-DEFAULTSEL", "OWN-LIVERESULTS", "REF-WRAPDICT", "OWN-NODEEPVAL", "GT-GATEEXACT", "VAL-EMPTYFOLD", "GT-EXECSETUP"],
         explanation="Who-may-write: the only element write into a DAG's results on a run path is the guarded setup write-back and "
                     "the only re-binding is setup() on a setup-only graph; pruning by membership precedes scheduling; build-time "
                     "refusals present; selection forwarded.",
@@ -131,7 +131,7 @@ PROPS = {
     "C12": dict(
         title="target / exclude / root selection executes exactly the documented closure",
         core=["GT-SELECT"],
-        aux=["GT-ALIAS", "REF-MAT", "SIB-FWD", "GT-PRESENCE", "GT-POP", "REF-DEREF", "GT-ALIASNORM", "GT-DEFAULTSEL", "REF-STUBEXEC", "GT-REFALIAS", "GT-ROOTCONST", "OWN-WRITEBACK", "GT-GATEEXACT", "VAL-EMPTYFOLD"],
+        aux=["GT-ALIAS", "REF-MAT", "SIB-FWD", "GT-PRESENCE", "GT-POP", "REF-DEREF", "GT-ALIASNORM", "GT-DEFAULTSEL", "REF-STUBEXEC", "GT-REFALIAS", "GT-ROOTCONST", "OWN-WRITEBACK", "GT-GATEEXACT", "VAL-EMPTYFOLD", "GT-EXECSETUP"],
         explanation="Three guarded steps in dominance order roots -> exclude -> targets, each with the right closure primitive "
                     "(descendants incl. self / ancestors incl. self); alias order node, tag, id; the ValueErrors are reachable and "
                     "unconditional under their tests; unexecuted ids read as None.",
